@@ -187,6 +187,24 @@ def correspond(ctx):
                 lines.append('import %s %d %d %d %d %d %s' % (want_tc, mm, nn, s0, s1, base, ','.join(ntok(v) for v in vals) or '-'))
                 expect.append(obs); meta.append({'format': fmt, 'kind': kind, 'values': vals})
             distinct.add(('import', fmt, kind))
+        # integer buffers with entries beyond 32 bits, imported with every target typecode (conversion on import reads the full element width)
+        if it % 4 == 1:
+            rb = random.Random(ctx.seed * 30011 + it)
+            fmtb = rb.choice(['l', 'l', 'q', 'i'])
+            big = [2**31, -2**31 - 1, 2**32 + 5, 2**40, -2**45 - 3, 2**52 + 1, 7, -3] if fmtb != 'i' else [2**31 - 1, -2**31, 65536 * 3, -70000, 7, -3]
+            cntb = rb.randint(1, 6); valsb = [rb.choice(big) for _ in range(cntb)]
+            arrb = array.array(fmtb, valsb)
+            for tc2 in (None, 'i', 'd', 'z'):
+                srcb = memoryview(arrb)
+                if cntb % 2 == 0 and rb.random() < 0.4: srcb = srcb.cast('B').cast(fmtb, shape=(2, cntb // 2))
+                evals += 1
+                try: Bb = matrix(srcb) if tc2 is None else matrix(srcb, tc=tc2)
+                except TypeError: continue          # a refusal is acceptable, a wrong value is not
+                flat = valsb if srcb.ndim == 1 else [valsb[i_ * (cntb // 2) + j_] for j_ in range(cntb // 2) for i_ in range(2)]
+                wantb = [complex(v) if Bb.typecode == 'z' else (float(v) if Bb.typecode == 'd' else v) for v in flat]
+                if list(Bb) != wantb:
+                    ctx.violation('c20:buffer-import-wide-integers:%s->%s' % (fmtb, Bb.typecode), "matrix(<buffer of format '%s'>%s) gives %r for the entries %r"
+                                  % (fmtb, '' if tc2 is None else ", tc='%s'" % tc2, list(Bb), flat), {'format': fmtb, 'values': valsb, 'tc': tc2})
         # buffer import with an explicit byte order / other element formats (ctypes exporters: '<d', '>d', '>i', '<f', '<q', ...): the matrix
         # either reproduces the exported values exactly or refuses the buffer (TypeError); a wrong value is never acceptable
         if rng.random() < 0.35:
